@@ -55,8 +55,13 @@ pub fn c09_run(args: &Args) -> i32 {
         }
     };
     if let Some(m) = merged.infos.get("machinery") {
-        eprintln!("MACHINERY: {m}");
-        return 2;
+        // an incomplete sweep decides nothing by itself - but violations found elsewhere in the
+        // same run stand, and they come first
+        if sink.count() == 0 {
+            eprintln!("MACHINERY: {m}");
+            return 2;
+        }
+        eprintln!("note: {m} (violations were found, they are reported)");
     }
     for h in &merged.hung {
         let case = J::parse(h).unwrap_or(J::Null);
@@ -504,6 +509,44 @@ pub fn c15_worker(args: &Args, w: &Worker) -> i32 {
                         &format!("exec|{}", canonical_line(&toks)),
                         &format!("executing the line '{line}' through the command loop panics ({})", super::searchrun::last_panic()),
                         &obj(vec![("kind", s("exec")), ("line", s(line))]),
+                    );
+                }
+            }
+        }
+    }
+    // E1c: `position fen` with a TRUNCATED argument list: every sequence of fewer than six tokens
+    // after `fen` over {the six fields of a valid FEN, moves, two move strings, junk}. With six or
+    // more tokens the first six are the FEN argument, which the property assumes to be valid;
+    // with fewer there is no complete FEN argument and the line must simply be rejected.
+    // Parsed and executed through the real command loop.
+    {
+        let f: Vec<&str> = VALID_FEN.split(' ').collect();
+        let alpha: Vec<&str> = vec![f[0], f[1], f[2], f[3], f[4], f[5], "moves", "e2e4", "e1g1", "junk"];
+        for len in 0..=5usize {
+            let count = (alpha.len() as u64).pow(len as u32);
+            for code in 0..count {
+                total += 1;
+                if total % w.nshards as u64 != w.shard as u64 {
+                    continue;
+                }
+                let mut toks: Vec<&str> = vec!["position", "fen"];
+                let mut x = code;
+                for _ in 0..len {
+                    toks.push(alpha[(x % alpha.len() as u64) as usize]);
+                    x /= alpha.len() as u64;
+                }
+                let line = toks.join(" ");
+                w.count("truncated_position_fen_lines_executed", 1);
+                c15_guard(&line);
+                let script = format!("{line}\nisready\nquit\n");
+                let parsed = std::panic::catch_unwind(|| crate::uci::rce_verif_parse(&toks).is_ok());
+                let ran = std::panic::catch_unwind(|| crate::uci::rce_verif_run_script(&script));
+                if parsed.is_err() || ran.is_err() {
+                    w.count("parser_panics", 1);
+                    w.violation(
+                        &format!("fen-truncated|{}", if parsed.is_err() { "parse" } else { "exec" }),
+                        &format!("the line '{line}' (no complete FEN argument) panics on the main thread ({}) instead of being rejected", super::searchrun::last_panic()),
+                        &obj(vec![("kind", s("exec")), ("line", s(line.clone()))]),
                     );
                 }
             }
